@@ -153,16 +153,23 @@ def integerCanon (v : Int) : Str := if v < 0 then '-' :: natCanon v.natAbs else 
 no '+' sign; an integer value is written as an integer (no point); otherwise at least one digit on each
 side of the point, no leading zero before the point other than a single '0', no trailing zero after it;
 zero is "0" (F&O 19.1.2: cast to xs:integer first when the value is integral). -/
-def isCanonicalDecimal (s : Str) : Bool :=
-  let body := match s with | '-' :: r => r | r => r
-  let negOk := match s with
-    | '-' :: r => r.any (fun c => isDigit c && c != '0')   -- "-0" is not canonical
-    | _ => true
-  let intOk (a : Str) : Bool := unsignedNoDecimalPt a && (a == ['0'] || a.head? != some '0')
-  negOk &&
+def stripMinus : Str → Str
+  | '-' :: r => r
+  | r => r
+
+/-- a minus sign only in front of a non-zero number ("-0" is not canonical) -/
+def minusOk : Str → Bool
+  | '-' :: r => r.any (fun c => isDigit c && c != '0')
+  | _ => true
+
+def canonIntPart (a : Str) : Bool := unsignedNoDecimalPt a && (a == ['0'] || a.head? != some '0')
+
+def canonUnsigned (body : Str) : Bool :=
   match splitAt (· == '.') body with
-  | (a, none) => intOk a
-  | (a, some f) => intOk a && fracFrag f && f.getLast? != some '0'
+  | (a, none) => canonIntPart a
+  | (a, some f) => canonIntPart a && fracFrag f && f.getLast? != some '0'
+
+def isCanonicalDecimal (s : Str) : Bool := minusOk s && canonUnsigned (stripMinus s)
 
 /-- the representative of a decimal value with the least scale -/
 def normAux (n : Int) : Nat → DecVal
